@@ -1,7 +1,12 @@
 (* Extraction of the C11 model and specification to OCaml.
    ExtrOcamlBasic only: bool, option, list, prod, unit map to OCaml's;
-   N / positive / nat stay the extracted inductive types. *)
+   N / positive / nat stay the extracted inductive types.
+   Third part (the packet step): the strict slicing model (directory Parse), `frag_key_of`,
+   `pk_step` and the wire specification `wire_frag_of` of Defrag/PacketStep.v. *)
 From EP Require Import Base.Bytes Defrag.Spec Defrag.Model Defrag.PoolModel.
+From EP Require Import Parse.Types Parse.Slices Parse.Cursor Parse.View Parse.WireSpec
+  Parse.Access Parse.Fields.
+From EP Require Import Defrag.PacketStep.
 From Coq Require Import Extraction ExtrOcamlBasic.
 Extraction Language OCaml.
 Extraction "m_c11.ml"
@@ -10,4 +15,5 @@ Extraction "m_c11.ml"
   pool_new process return_buf retain
   spec_new spec_add spec_complete spec_payload
   spec_process spec_retain
-  retain_f stats spec_retain_f.
+  retain_f stats spec_retain_f
+  slice_with frag_key_of pkt_of_key pk_step encode_id wire_frag_of frag_of_wire.
